@@ -25,6 +25,12 @@ CHECKS = {
             'for present, near-miss and absent queries in all four class/order cells.',
             'Trusted: writer vf/enc/elf.py incl. its own SysV/GNU hash functions and table builders; Hypothesis.',
             'DESIGN.md 4/C03'),
+    'C04': ('Hypothesis-generated DIE-tree models + every-form x every-cell sweep, written by an independent DWARF encoder; round-trip against the model',
+            'Exploration: unit headers, every entry (offset, size, code, tag, child flag), every attribute (name, final form, raw and resolved value, '
+            'offset, indirection length), tiling, children/parent relations and reference resolution (unit-relative, ref_addr across units, ref_sig8 to '
+            'v4 type units) of generated .debug_info/.debug_types/.debug_abbrev sections with mixed units, in all version x format x address-size x byte-order cells.',
+            'Trusted: the encoder vf/enc/dwarf.py (written from DWARF v5 chapter 7), vendored LLVM Dwarf.def for tag/attribute names, Hypothesis.',
+            'DESIGN.md 4/C04'),
     'C16': ('exhaustive enumeration of short encodings + Hypothesis random encodings against an independent arithmetic decoder',
             'Exploration: every LEB128 prefix up to 2 (quick) / 3 (thorough) bytes and (thorough) all 2^24 24-bit values are enumerated '
             'completely; longer encodings, fixed-width integers, strings, blocks and initial lengths are covered by boundary sweeps and '
